@@ -351,6 +351,10 @@ func (x *Exprer) compute(v ssa.Value) *Expr {
 				loop = true // loop-carried edge
 				continue
 			}
+			if ee.Op == "phi" && ee.Name == "μ" && len(ee.Args) == 0 {
+				loop = true // the latch merge of this very loop (`if c { acc = f(acc) }` in the body) carries nothing but the loop
+				continue
+			}
 			if ee.Op == "phi" && ee.Name == "" { // flatten
 				for _, a := range ee.Args {
 					seen[a.String()] = a
